@@ -98,14 +98,15 @@ Product(sets) == IF sets = <<>> THEN { <<>> }
 VtOk(s, vt) == vt = <<>> \/ VT(s, Len(vt)) = vt
 
 CountCap == 1000000
-\* everything after the scan: look-back, product, check filter.  heap = 0 stands for "unrestricted"
+\* everything after the scan: look-back, product, check filter.  heap = -1 stands for "unrestricted", any other value is the literal limit
+\* (a limit of 0 sends every input to the fallback path)
 Finish(live, N, k, dna, vt, indel, heap, st) ==
   LET fr == [i \in 1..Len(st.markers) |-> FragsFor(live, N, k, st.chunks[i], st.markers[i], indel)]
       sizes == [i \in 1..Len(fr) |-> Cardinality(fr[i].frags)]
       \* saturating product (TLC integers are 32-bit): anything above CountCap is "more than any heap limit in use"
       count == FoldLeft(LAMBDA a, x : IF x = 0 THEN 0 ELSE IF a > CountCap \div x THEN CountCap + 1 ELSE a * x, 1, sizes)
       vis == st.visited + FoldLeft(LAMBDA a, x : a + x.visited, 0, fr)
-  IN IF count = 0 \/ (heap > 0 /\ count > heap) THEN
+  IN IF count = 0 \/ (heap >= 0 /\ count > heap) THEN
         [cands |-> IF VtOk(dna, vt) THEN <<dna>> ELSE <<>>, det |-> 0, flag |-> ~VtOk(dna, vt), count |-> 0, visited |-> vis]
      ELSE LET all == {Assemble(st.segs, t, 1) : t \in Product([i \in 1..Len(fr) |-> fr[i].frags])}
               good == {s \in all : VtOk(s, vt)}
